@@ -78,7 +78,7 @@ StepEv == IsEv("step") /\ ~lost /\ StepOk /\ lost' = lost
 (* what the harness saw at the end of a phase                              *)
 (***************************************************************************)
 NormMsg(m) == IF m.t = "SESSION_STATE" THEN [m EXCEPT !.parts = ToSet(@), !.ents = ToSet(@)]
-              ELSE IF m.t = "VIKJA_STATE" THEN [m EXCEPT !.acts = ToSet(@)]
+              ELSE IF m.t \in {"VIKJA_STATE", "ODAL_STATE"} THEN [m EXCEPT !.acts = ToSet(@)]
               ELSE m
 NormOut(s) == [i \in 1..Len(s) |-> NormMsg(s[i])]
 
@@ -87,7 +87,7 @@ SessView(sid) ==
   [sid |-> sid, pcur |-> objs[s].pgen.cur, ecur |-> objs[s].egen.cur, fh |-> Cardinality(DOMAIN objs[s].fh),
    mem  |-> {<<p, objs[s].parts[p]>> : p \in DOMAIN objs[s].parts},
    ents |-> {<<e, objs[s].ents[e].owner, IF objs[s].ents[e].persist THEN 1 ELSE 0>> : e \in DOMAIN objs[s].ents},
-   acts |-> IF Vikja /\ objs[s].ms # 0 THEN {<<e, mst[objs[s].ms][e]>> : e \in DOMAIN mst[objs[s].ms]} ELSE {}]
+   acts |-> IF HasMod /\ objs[s].ms # 0 THEN {<<e, mst[objs[s].ms][e]>> : e \in (DOMAIN mst[objs[s].ms]) \ {0}} ELSE {}]
 LoggedSess(r) == [sid |-> r.sid, pcur |-> r.pcur, ecur |-> r.ecur, fh |-> r.fh,
                   mem |-> ToSet(r.mem), ents |-> ToSet(r.ents), acts |-> ToSet(r.acts)]
 
@@ -160,7 +160,7 @@ LConvBody(e) ==
       LET r == Fold([me |-> 0, P |-> {}, E |-> {}, A |-> {}, snap |-> FALSE], LOuts(e, c)) IN
       /\ r.P = {m[1] : m \in ToSet(S.mem)}
       /\ r.E = {[id |-> x[1], owner |-> x[2]] : x \in ToSet(S.ents)}
-      /\ (Vikja => r.A = {[eid |-> a[1], v |-> a[2]] : a \in ToSet(S.acts)})
+      /\ (HasMod => r.A = {[eid |-> a[1], v |-> a[2]] : a \in ToSet(S.acts)})
 
 LD9(e)  == \E c \in Conns : RelayBeforeSnapshot(LOuts(e, c), FALSE)
 LD13(e) == e.setters >= 2
@@ -199,6 +199,8 @@ L_RelayOnce ==
                      Count(od, LAMBDA m : m.t = "JOIN_BROADCAST" /\ m.pid = FirstMsg(oc, "JOIN_RESPONSE").pid) = 1
                /\ (rq.k = "Action" /\ bc[2] = b[2] /\ bc[3] # 0 /\ HasMsg(oc, "ACTION_RESPONSE")) =>
                      Count(od, LAMBDA m : m.t = "ACTION_BROADCAST" /\ m.eid = rq.eid /\ m.v = rq.v) = 1
+               /\ (rq.k = "AssetAdd" /\ bc[2] = b[2] /\ bc[3] # 0 /\ HasMsg(oc, "ASSET_ADD_RESPONSE")) =>
+                     Count(od, LAMBDA m : m.t = "ASSET_ADD_BROADCAST" /\ m.eid = rq.eid /\ m.v = FirstMsg(oc, "ASSET_ADD_RESPONSE").v) = 1
         \* departures (by disconnect or by joining elsewhere) of connections that were in d's session
         /\ \A c \in Conns \ {d} :
              LET bc == PreRow(Lg, c)  ac == LConnRow(Lg, c) IN
